@@ -13,8 +13,10 @@ from .calls import CallMixin, VSuper
 from . import models
 from . import regex   # noqa  (registers re.* models)
 
-Z3_TIMEOUT_MS = int(os.environ.get('PYVC_Z3_TIMEOUT_MS', '20000'))
-CVC5_TIMEOUT_S = int(os.environ.get('PYVC_CVC5_TIMEOUT_S', '30'))
+THOROUGH = os.environ.get('PYVC_TIER') == 'thorough'
+Z3_TIMEOUT_MS = int(os.environ.get('PYVC_Z3_TIMEOUT_MS', '60000' if THOROUGH else '20000'))
+CVC5_TIMEOUT_S = int(os.environ.get('PYVC_CVC5_TIMEOUT_S', '120' if THOROUGH else '30'))
+CROSS_TIMEOUT_S = int(os.environ.get('PYVC_CROSS_TIMEOUT_S', '20'))
 
 
 class Engine(CallMixin, StmtMixin, ExprMixin, Exec):
@@ -78,6 +80,14 @@ def discharge(ob, use_cvc5=True):
     ob.secs = time.time() - t0
     if r == z3.unsat:
         ob.verdict, ob.backend = 'proved', 'z3'
+        if THOROUGH and use_cvc5:
+            # thorough tier: every z3 proof is cross-checked by the independent solver
+            res = run_cvc5(smt2, timeout=CROSS_TIMEOUT_S)
+            ob.secs = time.time() - t0
+            if res == 'unsat':
+                ob.backend = 'z3&cvc5'
+            elif res == 'sat':
+                ob.verdict, ob.backend = 'undecided', 'disagreement:z3=unsat,cvc5=sat'
         return ob
     if r == z3.sat:
         ob.verdict, ob.backend = 'refuted', 'z3'
